@@ -215,7 +215,7 @@ def coq_eval_sharded(header, items, render, name, shard=400):
         for k, (rc, out) in enumerate(ex.map(one, range(len(shards)))):
             if rc != 0:
                 errors.append(out[-1500:])
-            for m in re.finditer(r"=\s*\((\d+),\s*([^)]*?)\)\s*\n\s*:", out, re.S):
+            for m in re.finditer(r"=\s*\((\d+),\s*(.*?)\)\s*\n\s*:", out, re.S):
                 results[int(m.group(1))] = " ".join(m.group(2).split())
     return results, errors
 
